@@ -11,9 +11,11 @@ number order, len(_mailbox) <= max_messages after every atomic step, no deadlock
 """
 from __future__ import annotations
 
+import contextlib
 import itertools
-import math
+import os
 import random
+import time
 
 from lib.straxlib import strax  # noqa: F401  (must be the first strax import: private numba cache)
 import strax.mailbox as mbm  # noqa: E402
@@ -57,7 +59,26 @@ def op_line(case):
     prog = ",".join(case["prog"]) or "-"
     workers = ";".join((".".join(map(str, w)) or "_") for w in case["workers"]) or "-"
     sched = ",".join(case.get("sched") or []) or "-"
-    return f"c05.run {cap} {case['lazy']} {case['drive']} {prog} {workers} {case['kills'] or '-'} {sched}"
+    return f"c05.run {gate_rule()} {cap} {case['lazy']} {case['drive']} {prog} {workers} {case['kills'] or '-'} {sched}"
+
+
+_RULE = []
+
+
+def gate_rule():
+    """which stale-waiter test `Mailbox._can_fetch` uses today (read off its source; the Lean model has both):
+    L = compares waiting_for with the lowest buffered number (defect D6), H = `_has_msg` (candidate fix)"""
+    if not _RULE:
+        import inspect
+        src = inspect.getsource(mbm.Mailbox._can_fetch)
+        code = "\n".join(ln.split("#")[0] for ln in src.splitlines())
+        if "_lowest_msg_number" in code:
+            _RULE.append("L")
+        elif "_has_msg" in code:
+            _RULE.append("H")
+        else:
+            _RULE.append("L")     # unknown rule: the correspondence will show whether the model still fits
+    return _RULE[0]
 
 
 def thread_key(name):
@@ -421,22 +442,35 @@ def random_config(rng, kind="clean"):
 
 
 def small_configs(quick):
-    """the smallest configurations, explored exhaustively up to the preemption bound"""
+    """(configuration, preemption bound) pairs explored exhaustively: every schedule with at most that many
+    preemptions is run on the real code and on the model"""
     out = []
-    for nsub, nmsg in ([(1, 1), (1, 2), (2, 1), (2, 2)] if quick else [(1, 1), (1, 2), (2, 1), (2, 2), (1, 3), (3, 1), (2, 3)]):
+    prog = lambda n: [f"p{10 * (i + 1)}" for i in range(n)]  # noqa: E731
+    b_small = 2 if quick else 3
+    # one subscriber, 1-2 messages (3 in the thorough tier); two subscribers with one message
+    for nsub, nmsg in [(1, 1), (1, 2), (2, 1)] + ([] if quick else [(1, 3), (3, 1)]):
         for cap in ([1, 2] if nmsg > 1 else [1]):
-            prog = [f"p{10 * (i + 1)}" for i in range(nmsg)]
-            out.append(mk_case(cap, 0, "1" * nsub, prog))
+            out.append((mk_case(cap, 0, "1" * nsub, prog(nmsg)), b_small))
             for drive in sorted({"1" * nsub, "1" + "0" * (nsub - 1), "0" * (nsub - 1) + "1"}):
-                out.append(mk_case(cap, 1, drive, prog))
-        if nmsg == 2:
-            out.append(mk_case(2, 0, "1" * nsub, ["1@p10", "0@p20"]))
-            out.append(mk_case(None, 1, "1" + "0" * (nsub - 1), ["p10", "p20"]))
-    out.append(mk_case(1, 0, "1", ["f0:10", "p20"], [[0]]))
-    out.append(mk_case(1, 1, "1", ["f0:10"], [[0]]))
-    out.append(mk_case(1, 0, "1", ["p10", "p20"], kills="u"))
-    out.append(mk_case(1, 1, "10", ["p10"], kills="d"))
-    out.append(mk_case(1, 0, "1", ["p10", "x"]))
+                out.append((mk_case(cap, 1, drive, prog(nmsg)), b_small))
+    out.append((mk_case(2, 0, "1", ["1@p10", "0@p20"]), b_small))
+    out.append((mk_case(None, 1, "1", prog(2)), b_small))
+    out.append((mk_case(1, 0, "1", ["f0:10", "p20"], [[0]]), b_small))
+    out.append((mk_case(1, 1, "1", ["f0:10"], [[0]]), b_small))
+    out.append((mk_case(1, 0, "1", prog(2), kills="u"), b_small))
+    out.append((mk_case(1, 1, "10", prog(1), kills="d"), 1 if quick else 2))
+    out.append((mk_case(1, 0, "1", ["p10", "x"]), b_small))
+    # two subscribers, two messages: bound 1 in the quick tier, bound 2 in the thorough one
+    b22 = 1 if quick else 2
+    out.append((mk_case(1, 0, "11", prog(2)), b22))
+    out.append((mk_case(1, 1, "10", prog(2)), b22))
+    out.append((mk_case(2, 1, "10", prog(2)), b22))
+    if not quick:
+        out.append((mk_case(2, 0, "11", prog(2)), b22))
+        out.append((mk_case(1, 1, "11", prog(2)), b22))
+        out.append((mk_case(1, 1, "01", prog(2)), b22))
+        out.append((mk_case(2, 0, "11", ["1@p10", "0@p20"]), b22))
+        out.append((mk_case(None, 1, "10", prog(2)), b22))
     return out
 
 
@@ -521,6 +555,23 @@ def oracle_divide(case, out):
 
 
 # ----------------------------------------------------------------------------- the check
+@contextlib.contextmanager
+def pinned():
+    """keep all scheduler threads on one CPU while real runs are in progress: a hand-off between two OS threads
+    on the same core costs microseconds, across cores on a loaded machine milliseconds (measured 4-8x)"""
+    try:
+        old = os.sched_getaffinity(0)
+    except (AttributeError, OSError):
+        yield
+        return
+    try:
+        cpus = sorted(old)
+        os.sched_setaffinity(0, {cpus[os.getpid() % len(cpus)]})
+        yield
+    finally:
+        os.sched_setaffinity(0, old)
+
+
 RULE = "non-trivial = at least one message and at least two distinct threads in the schedule; distinct = distinct (configuration, schedule)"
 
 
@@ -533,53 +584,61 @@ def _correspond(ctx, name, cases, **kw):
 def run(ctx):
     rng = ctx.rng
     quick = not ctx.thorough
+    ctx.note(f"stale-waiter rule of Mailbox._can_fetch read off the source: {gate_rule()} (L = compares with the lowest number, H = _has_msg)")
     # 1. systematic: every schedule with <= bound preemptions for the smallest configurations
-    bound = ctx.pick(2, 3)
-    limit = ctx.pick(1500, 12000)
-    sys_cases, trunc = [], 0
-    for base in small_configs(quick):
-        cs, t = explore(base, bound, limit)
-        sys_cases += cs
-        trunc += int(t)
+    limit = ctx.pick(4000, 40000)
+    sys_cases, trunc = [], []
+    t0 = time.time()
+    with pinned():
+        for base, bound in small_configs(quick):
+            cs, t = explore(base, bound, limit)
+            sys_cases += cs
+            if t:
+                trunc.append(op_line(base))
     if trunc:
-        ctx.note(f"systematic exploration hit the per-configuration limit of {limit} schedules for {trunc} configurations")
-    _correspond(ctx, "mailbox/systematic", sys_cases, exhaustive=(trunc == 0))
-    ctx.note(f"systematic: {len(sys_cases)} schedules, preemption bound {bound}")
+        ctx.note(f"systematic exploration stopped at the per-configuration limit of {limit} schedules for {len(trunc)} configurations")
+    ctx.note(f"systematic: {len(sys_cases)} schedules of {len(small_configs(quick))} configurations "
+             f"(preemption bounds {sorted({b for _, b in small_configs(quick)})}), {time.time() - t0:.0f}s")
+    _correspond(ctx, "mailbox/systematic", sys_cases, exhaustive=not trunc)
 
-    # 2. random configurations x random schedules
-    def batch(kind, n):
+    # 2. random configurations x random schedules. The number of cases is the minimum below on a busy machine
+    #    and grows up to the maximum while the time budget lasts (the sequence itself depends only on the seed).
+    def batch(kind, n_min, n_max, budget):
         cases = []
-        for _ in range(n):
-            c = random_config(rng, kind)
-            r = rng.random()
-            seed = rng.getrandbits(48)
-            if r < 0.45:
-                c["strat"] = dict(kind="random", seed=seed)
-            elif r < 0.75:
-                c["strat"] = dict(kind="random", seed=seed, stick=rng.choice([0.5, 0.8, 0.9]))
-            else:
-                c["strat"] = dict(kind="pct", seed=seed, depth=rng.randint(1, 4), est=40)
-            c["_out"] = execute(c)
-            cases.append(c)
+        t1 = time.time()
+        with pinned():
+            while len(cases) < n_max and (len(cases) < n_min or time.time() - t1 < budget):
+                c = random_config(rng, kind)
+                r = rng.random()
+                seed = rng.getrandbits(48)
+                if r < 0.45:
+                    c["strat"] = dict(kind="random", seed=seed)
+                elif r < 0.75:
+                    c["strat"] = dict(kind="random", seed=seed, stick=rng.choice([0.5, 0.8, 0.9]))
+                else:
+                    c["strat"] = dict(kind="pct", seed=seed, depth=rng.randint(1, 4), est=40)
+                c["_out"] = execute(c)
+                cases.append(c)
         return cases
-    _correspond(ctx, "mailbox/random", batch("clean", ctx.pick(3500, 36000)))
-    _correspond(ctx, "mailbox/kill", batch("kill", ctx.pick(1200, 10000)))
-    _correspond(ctx, "mailbox/malformed", batch("malformed", ctx.pick(500, 4000)))
+    _correspond(ctx, "mailbox/random", batch("clean", *ctx.pick((1500, 5000, 30), (20000, 36000, 400))))
+    _correspond(ctx, "mailbox/kill", batch("kill", *ctx.pick((500, 1500, 10), (6000, 10000, 120))))
+    _correspond(ctx, "mailbox/malformed", batch("malformed", *ctx.pick((300, 600, 5), (2000, 4000, 50))))
 
     # 3. divide_outputs feeding several mailboxes (oracle only; the network model is C06's)
     if ctx.thorough:
         dcases, outs = [], {}
-        for _ in range(3000):
-            nmb = rng.randint(2, 3)
-            lazy = rng.random() < 0.5
-            c = dict(nmb=nmb, nmsg=rng.randint(0, 4), lazy=int(lazy), cap=rng.randint(1, 3),
-                     readers=[rng.randint(1, 2) for _ in range(nmb)],
-                     free=([f"o{nmb - 1}"] if lazy and rng.random() < 0.3 else []), seed=rng.getrandbits(48),
-                     stick=rng.choice([0, 0.5, 0.8]))
-            out, tr = run_divide(c, S.RandomStrategy(random.Random(c["seed"]), stick=c["stick"]))
-            outs[len(dcases)] = out
-            c["i"] = len(dcases)
-            dcases.append(c)
+        with pinned():
+            for _ in range(3000):
+                nmb = rng.randint(2, 3)
+                lazy = rng.random() < 0.5
+                c = dict(nmb=nmb, nmsg=rng.randint(0, 4), lazy=int(lazy), cap=rng.randint(1, 3),
+                         readers=[rng.randint(1, 2) for _ in range(nmb)],
+                         free=([f"o{nmb - 1}"] if lazy and rng.random() < 0.3 else []), seed=rng.getrandbits(48),
+                         stick=rng.choice([0, 0.5, 0.8]))
+                out, tr = run_divide(c, S.RandomStrategy(random.Random(c["seed"]), stick=c["stick"]))
+                outs[len(dcases)] = out
+                c["i"] = len(dcases)
+                dcases.append(c)
         ctx.check_oracle("divide_outputs", dcases, lambda c: outs[c["i"]], oracle_divide,
                          rule="divide_outputs -> 2..3 real mailboxes, random schedules; oracle only",
                          branch=lambda c, o: f"{'lazy' if c['lazy'] else 'eager'}/{c['nmb']}mb/{'free' if c['free'] else 'nofree'}")
@@ -589,7 +648,8 @@ def search(ctx):
     """an obligation broke: oracle-only hunt on the real code"""
     rng = ctx.rng
     cases = []
-    for _ in range(15000):
+    t0 = time.time()
+    while len(cases) < 15000 and time.time() - t0 < ctx.pick(60, 600):
         c = random_config(rng, "clean" if rng.random() < 0.7 else "kill")
         c["strat"] = dict(kind="pct", seed=rng.getrandbits(48), depth=rng.randint(1, 4), est=40) if rng.random() < 0.5 \
             else dict(kind="random", seed=rng.getrandbits(48), stick=rng.choice([0, 0.5, 0.9]))
